@@ -490,6 +490,53 @@ func opDirected() []*opCase {
 	}
 }
 
+// opFromReplay rebuilds the case of a witness file written by bin/check
+// (VERIF_REPLAY=<replays/ID/*.json>): namespace, name, spec, topics and, for
+// C42, the operator environment. nil when no (usable) replay is given.
+func opFromReplay(m map[string]any) (*opCase, map[string]string) {
+	if m == nil {
+		return nil, nil
+	}
+	rep, _ := m["replay"].(map[string]any)
+	if rep == nil {
+		return nil, nil
+	}
+	ns, _ := rep["namespace"].(string)
+	name, _ := rep["name"].(string)
+	if name == "" {
+		return nil, nil
+	}
+	c := &kafscalev1alpha1.KafscaleCluster{ObjectMeta: metav1.ObjectMeta{Namespace: ns, Name: name, UID: types.UID("uid-replay")}}
+	if sp, ok := rep["spec"]; ok {
+		if b, err := json.Marshal(sp); err == nil {
+			_ = json.Unmarshal(b, &c.Spec)
+		}
+	}
+	oc := &opCase{Cluster: c}
+	if ts, ok := rep["topics"].([]any); ok {
+		for _, t := range ts {
+			tm, _ := t.(map[string]any)
+			tn, _ := tm["name"].(string)
+			parts, _ := tm["partitions"].(float64)
+			if tn != "" {
+				oc.Topics = append(oc.Topics, &kafscalev1alpha1.KafscaleTopic{
+					ObjectMeta: metav1.ObjectMeta{Namespace: ns, Name: tn},
+					Spec:       kafscalev1alpha1.KafscaleTopicSpec{ClusterRef: name, Partitions: int32(parts)},
+				})
+			}
+		}
+	}
+	env := map[string]string{}
+	if em, ok := rep["env"].(map[string]any); ok {
+		for k, v := range em {
+			if sv, ok := v.(string); ok {
+				env[k] = sv
+			}
+		}
+	}
+	return oc, env
+}
+
 // opDescribe is the compact replay form of a case.
 func opDescribe(oc *opCase) map[string]any {
 	type tp struct {
